@@ -122,7 +122,11 @@ struct QHarness {
 		expectCalls(want, got, one ? "processOne" : "process");
 		if(!ctx.failed && r != !batch.empty()) ctx.fail("result-wrong", fmt("%s returned %d with %zu events", one ? "processOne" : "process", (int)r, batch.size()));
 	}
-	void processIf(int proto, int verdict) {
+	int reentrantLeft = 0;     // >0: the next predicate call enqueues an int event from inside processIf
+	void maybeReenter() { if(reentrantLeft > 0) { --reentrantLeft; HarnessScope hs; int id = nextEv++; ctx.log(fmt("  (from inside the predicate) enqueue(void(int)) -> event %d", id)); q->enqueue(5, id); reentered.push_back(MEv{id, P_INT}); } }
+	std::vector<MEv> reentered;
+	void processIf(int proto, int verdict, bool reentrant = false) {
+		reentrantLeft = reentrant ? 1 : 0; reentered.clear();
 		// verdict 0: accept all, 1: refuse all, 2: accept odd ids
 		std::vector<Call> want, got; g_calls = &got;
 		std::deque<MEv> keep; bool any = false;
@@ -135,16 +139,21 @@ struct QHarness {
 			if(acc) { listenerCalls(e, want); consume(e); any = true; } else keep.push_back(e);
 		}
 		pending.swap(keep);
+		bool willAsk = false; for(auto & w : want) if(w.kind == 1) willAsk = true;
+		if(!willAsk) reentrantLeft = 0;
 		auto decide = [verdict](int id) { return verdict == 0 || (verdict == 2 && id % 2 == 1); };
 		bool r = false;
 		switch(proto) {
-		case P_INT: r = q->processIf([&](int v) { logCall(1, 0, P_INT, v); return decide(v); }); break;
-		case P_STR: r = q->processIf([&](const std::string & s) { int id = idOfStr(s); logCall(1, 0, P_STR, id); return decide(id); }); break;
-		case P_BIG: r = q->processIf([&](const Big & b) { int id = b.intact() ? b.t.id : -777; logCall(1, 0, P_BIG, id); return decide(id); }); break;
+		case P_INT: r = q->processIf([&](int v) { logCall(1, 0, P_INT, v); maybeReenter(); return decide(v); }); break;
+		case P_STR: r = q->processIf([&](const std::string & s) { int id = idOfStr(s); logCall(1, 0, P_STR, id); maybeReenter(); return decide(id); }); break;
+		case P_BIG: r = q->processIf([&](const Big & b) { int id = b.intact() ? b.t.id : -777; logCall(1, 0, P_BIG, id); maybeReenter(); return decide(id); }); break;
 		case P_VOID: r = q->processIf([&]() { logCall(1, 0, P_VOID, 0); return verdict == 0; }); break;
 		}
 		g_calls = nullptr;
-		ctx.log(fmt("processIf(predicate over %s, verdict %d) -> %d", protoName(proto), verdict, (int)r)); ctx.obs(r);
+		// events enqueued while processIf ran stay behind the ones it left in place
+		for(auto & e : reentered) pending.push_back(e);
+		reentrantLeft = 0;
+		ctx.log(fmt("processIf(predicate over %s, verdict %d%s) -> %d", protoName(proto), verdict, reentrant ? ", the predicate enqueues once" : "", (int)r)); ctx.obs(r);
 		if(proto == P_VOID && verdict == 2) { /* odd has no meaning for void(): treated as refuse-all above */ }
 		expectCalls(want, got, "processIf");
 		if(!ctx.failed && r != any) ctx.fail("result-wrong", fmt("processIf returned %d, expected %d", (int)r, (int)any));
@@ -168,7 +177,7 @@ struct QHarness {
 		expectCalls(want, got, "dispatch");
 	}
 
-	int menu() const { return 5 + 3 + 6 + 2 + 12 + 1 + 6; }
+	int menu() const { return 5 + 3 + 6 + 2 + 12 + 1 + 6 + 6; }
 	void topOp(Bfs & b, int op) {
 		if(op < 5) { if(liveL() >= cfg.maxListeners) b.skip(); addListener(op); return; } op -= 5;
 		if(op < 3) { if(slot[op] < 0) b.skip(); removeListener(slot[op]); return; } op -= 3;
@@ -176,7 +185,10 @@ struct QHarness {
 		if(op < 2) { process(op == 1); return; } op -= 2;
 		if(op < 12) { int proto = op / 3, v = op % 3; if(proto == P_VOID && v == 2) b.skip(); processIf(proto, v); return; } op -= 12;
 		if(op < 1) { clear(); return; } op -= 1;
-		directDispatch(op);
+		if(op < 6) { directDispatch(op); return; } op -= 6;
+		// processIf whose predicate enqueues once from inside: prototypes int/string/Big x verdict {refuse, odd}
+		if((int)pending.size() >= cfg.K) b.skip();
+		processIf(op / 2, 1 + op % 2, true);
 	}
 	std::string key() {
 		std::string k = "P:";
@@ -337,6 +349,10 @@ struct LHarness {
 // ------------------------------------------------------------------ include-event mode with a movable key type
 struct PolIncl { using ArgumentPassingMode = eventpp::ArgumentPassingIncludeEvent; };
 typedef eventpp::HeterTuple<void(const std::string &), void(const std::string &, int)> HTI;
+// exclude-event mode with a getEvent policy that derives the event from a movable field of an argument
+struct MsgX { std::string key; int v; };
+struct PolExGet { static std::string getEvent(const std::string &, const MsgX & m) { return m.key; } };
+typedef eventpp::HeterTuple<void(const MsgX &), void(int)> HTX;
 struct InclHarness {
 	Ctx & ctx;
 	InclHarness(Ctx & c) : ctx(c) {}
@@ -344,7 +360,7 @@ struct InclHarness {
 	void body(Bfs & b) {
 		ledger().reset();
 		b.stepEnd("start");
-		int cls = b.chooseOp(2);               // 0 HeterEventDispatcher::dispatch, 1 HeterEventQueue::enqueue+process
+		int cls = b.chooseOp(4);               // 0 HeterEventDispatcher::dispatch, 1 HeterEventQueue::enqueue+process (include mode); 2, 3: the same in exclude mode with a getEvent policy
 		int cat = ctx.ex.choose(4, 4, K_OP);   // lvalue, const lvalue, prvalue, std::move
 		int ar = ctx.ex.choose(2, 2, K_OP);    // which prototype
 		const std::string keyText = "the-event-key-that-is-longer-than-the-sso-buffer";
@@ -356,6 +372,29 @@ struct InclHarness {
 		auto wrong2 = [&](const std::string & k, int) { got.push_back("WRONG:" + k); };
 		std::string lv = keyText; const std::string clv = keyText;
 		static const char * catName[] = {"lvalue", "const lvalue", "prvalue", "std::move(lvalue)"};
+		if(cls >= 2) {
+			// the separately passed first argument is ignored by the policy; the event is the message's key field
+			auto lm = [&](const MsgX & m) { got.push_back("A:" + m.key); };
+			auto wrongm = [&](const MsgX & m) { got.push_back("WRONG:" + m.key); };
+			MsgX mlv{keyText, 7}; const MsgX mclv{keyText, 7};
+			ctx.log(fmt("%s (exclude-event mode, getEvent policy reading a field of the message) with the message passed as %s", cls == 3 ? "HeterEventQueue::enqueue+process" : "HeterEventDispatcher::dispatch", catName[cat]));
+			if(cls == 2) {
+				eventpp::HeterEventDispatcher<std::string, HTX, PolExGet> d;
+				d.appendListener(keyText, lm); d.appendListener(std::string(), wrongm); d.appendListener(otherKey, wrongm);
+				if(cat == 0) d.dispatch(std::string("ignored"), mlv); else if(cat == 1) d.dispatch(std::string("ignored"), mclv); else if(cat == 2) d.dispatch(std::string("ignored"), MsgX{keyText, 7}); else d.dispatch(std::string("ignored"), std::move(mlv));
+			}
+			else {
+				eventpp::HeterEventQueue<std::string, HTX, PolExGet> q;
+				q.appendListener(keyText, lm); q.appendListener(std::string(), wrongm); q.appendListener(otherKey, wrongm);
+				if(cat == 0) q.enqueue(std::string("ignored"), mlv); else if(cat == 1) q.enqueue(std::string("ignored"), mclv); else if(cat == 2) q.enqueue(std::string("ignored"), MsgX{keyText, 7}); else q.enqueue(std::string("ignored"), std::move(mlv));
+				q.process();
+			}
+			std::vector<std::string> want(1, "A:" + keyText);
+			for(auto & g : got) ctx.obsStr(g);
+			if(got != want) { std::string g; for(auto & x : got) g += x + " "; ctx.fail("exclude-mode-policy-key-lost", fmt("%s with the message passed as %s reached [%s] instead of the listener registered for the message's key", cls == 3 ? "enqueue+process" : "dispatch", catName[cat], g.c_str())); }
+			if(cat == 0 && mlv.key != keyText) ctx.fail("caller-lvalue-modified", "the caller's lvalue message was modified");
+			b.stepEnd(fmt("done%d.%d.%d", cls, cat, ar));
+		}
 		ctx.log(fmt("%s with the key passed as %s, prototype %d", cls ? "HeterEventQueue::enqueue+process" : "HeterEventDispatcher::dispatch", catName[cat], ar));
 		if(cls == 0) {
 			eventpp::HeterEventDispatcher<std::string, HTI, PolIncl> d;
